@@ -12,6 +12,7 @@ import TE.Lemmas.FamStatAgg
 import TE.Lemmas.FamStatBinned
 import TE.Lemmas.FamStatText
 import TE.Lemmas.FamStatList
+import TE.Lemmas.FamCacheSM
 namespace TE.C12
 open TE
 
@@ -354,5 +355,239 @@ example :
       (reciprocalRankStat none (catPair bs)).toOption = some [1/2, 1/2, 1/3] := by
   intro bs
   exact ⟨by decide, FamStat.valid_of_all _ _ (by decide +kernel), by decide +kernel⟩
+
+end TE.C12
+
+/-! ## class level: the cache-all and the non-additive classes (TE/Model/FamsCache.lean)
+
+  The driver packs of these classes run the typed objects `Fams.…C.cls` / `Fams.…L.cls` /
+  `Fams.wassCls` / `Fams.psnrCls` / `Agg.extImpl` / `Agg.covImpl` / `Agg.thrImpl`.
+  `FamCache.BatchingSame f cat`: feeding valid batches one by one reaches the state of ONE update with
+  their concatenation.  `FamCache.AnyOrder f P`: two non-empty valid streams whose cached samples are
+  permutations of each other (any batching, any order of the batches, any order of the samples inside
+  them) give the same `compute()` — because the functional sorts / sums the samples (C05, C06, C07).
+  `P` is the side condition on the samples under which that holds. -/
+namespace TE.C12
+open TE TE.Fams TE.FamCache
+
+/-- BinaryAUROC (any `num_tasks`, weights): permutation invariance for 0/1 targets. -/
+theorem C12_batching_BinaryAUROC (nt : Nat) :
+    BatchingSame (binaryAurocC nt) List.flatten ∧ AnyOrder (binaryAurocC nt) (BinaryLabels nt) :=
+  ⟨batchingSame_of_statCat _ FamStat.statCat_catSamples, anyOrder_of_outPerm _ (outPerm_binaryAuroc nt)⟩
+
+/-- MulticlassAUROC (every average). -/
+theorem C12_batching_MulticlassAUROC (nc : Nat) (avg : Curve.Avg) :
+    BatchingSame (multiclassAurocC nc avg) catPair ∧ AnyOrder (multiclassAurocC nc avg) (fun _ => True) :=
+  ⟨batchingSame_of_statCat _ FamStat.statCat_rowSamples, anyOrder_of_outPerm _ (outPerm_multiclassAuroc nc avg)⟩
+
+/-- BinaryAUPRC (any `num_tasks`). -/
+theorem C12_batching_BinaryAUPRC (nt : Nat) :
+    BatchingSame (binaryAuprcC nt) List.flatten ∧ AnyOrder (binaryAuprcC nt) (fun _ => True) :=
+  ⟨batchingSame_of_statCat _ FamStat.statCat_catSamples, anyOrder_of_outPerm _ (outPerm_binaryAuprc nt)⟩
+
+/-- MulticlassAUPRC (every average). -/
+theorem C12_batching_MulticlassAUPRC (nc : Nat) (avg : Curve.Avg) :
+    BatchingSame (multiclassAuprcC nc avg) catPair ∧ AnyOrder (multiclassAuprcC nc avg) (fun _ => True) :=
+  ⟨batchingSame_of_statCat _ FamStat.statCat_rowSamples, anyOrder_of_outPerm _ (outPerm_multiclassAuprc nc avg)⟩
+
+/-- MultilabelAUPRC (every average). -/
+theorem C12_batching_MultilabelAUPRC (nl : Nat) (avg : Curve.Avg) :
+    BatchingSame (multilabelAuprcC nl avg) catPair ∧ AnyOrder (multilabelAuprcC nl avg) (fun _ => True) :=
+  ⟨batchingSame_of_statCat _ FamStat.statCat_rowSamples, anyOrder_of_outPerm _ (outPerm_multilabelAuprc nl avg)⟩
+
+/-- BinaryPrecisionRecallCurve. -/
+theorem C12_batching_BinaryPrecisionRecallCurve :
+    BatchingSame binaryPrCurveC catPair ∧ AnyOrder binaryPrCurveC (fun _ => True) :=
+  ⟨batchingSame_of_statCat _ FamStat.statCat_pairSamples, anyOrder_of_outPerm _ outPerm_binaryPrCurve⟩
+
+/-- MulticlassPrecisionRecallCurve; with `num_classes=None` the class count is the width of the first
+    cached row, hence the uniform-width side condition (always true for streams `torch.cat` accepts). -/
+theorem C12_batching_MulticlassPrecisionRecallCurve (nc0 : Option Nat) :
+    BatchingSame (multiclassPrCurveC nc0) catPair ∧ AnyOrder (multiclassPrCurveC nc0) UniformWidth :=
+  ⟨batchingSame_of_statCat _ FamStat.statCat_rowSamples, anyOrder_of_outPerm _ (outPerm_multiclassPrCurve nc0)⟩
+
+/-- MultilabelPrecisionRecallCurve. -/
+theorem C12_batching_MultilabelPrecisionRecallCurve (nl : Nat) :
+    BatchingSame (multilabelPrCurveC nl) catPair ∧ AnyOrder (multilabelPrCurveC nl) (fun _ => True) :=
+  ⟨batchingSame_of_statCat _ FamStat.statCat_rowSamples, anyOrder_of_outPerm _ (outPerm_multilabelPrCurve nl)⟩
+
+/-- BinaryRecallAtFixedPrecision. -/
+theorem C12_batching_BinaryRecallAtFixedPrecision (p : Q) :
+    BatchingSame (binaryRecallAtPrecisionC p) catPair ∧ AnyOrder (binaryRecallAtPrecisionC p) (fun _ => True) :=
+  ⟨batchingSame_of_statCat _ FamStat.statCat_pairSamples, anyOrder_of_outPerm _ (outPerm_binaryRecallAtPrecision p)⟩
+
+/-- MultilabelRecallAtFixedPrecision. -/
+theorem C12_batching_MultilabelRecallAtFixedPrecision (p : Q) (nl : Nat) :
+    BatchingSame (multilabelRecallAtPrecisionC p nl) catPair ∧
+      AnyOrder (multilabelRecallAtPrecisionC p nl) (fun _ => True) :=
+  ⟨batchingSame_of_statCat _ FamStat.statCat_rowSamples,
+    anyOrder_of_outPerm _ (outPerm_multilabelRecallAtPrecision p nl)⟩
+
+/-- AUC, both `reorder` settings: consecutive batching.  (`reorder=False` is order-carrying by
+    definition: nothing more holds.) -/
+theorem C12_batching_AUC (reorder : Bool) (nt : Nat) : BatchingSame (aucC reorder nt) List.flatten :=
+  batchingSame_of_statCat _ FamStat.statCat_catSamples
+
+/- AUC(reorder=True), full statement (FALSE for the code as it is, and by definition of the polyline):
+     `AnyOrder (aucC true nt) (fun _ => True)`
+   `torch.sort(x, stable=True)` keeps the arrival order of points with equal `x`; the trapezoids entering
+   and leaving such a vertical segment depend on which of the tied points comes first. -/
+
+/-- AUC(reorder=True): any order of the points, provided points with equal abscissa coincide. -/
+theorem C12_batching_AUC_reorder_partial (nt : Nat) : AnyOrder (aucC true nt) (DistinctX nt) :=
+  anyOrder_of_outPerm _ (outPerm_auc_reorder nt)
+
+/-- witness: the points `(0,0), (1,1), (1,2), (3,0)` give `5/2`, with the tied pair swapped `2`. -/
+theorem C12_AUC_reorder_tie_witness :
+    ((aucC true 1).out [([0], [0]), ([1], [1]), ([1], [2]), ([3], [0])]).toOption = some [5 / 2] ∧
+    ((aucC true 1).out [([0], [0]), ([1], [2]), ([1], [1]), ([3], [0])]).toOption = some [2] ∧
+    [([0], [0]), ([1], [1]), ([1], [2]), ([3], [0])].Perm
+      ([([0], [0]), ([1], [2]), ([1], [1]), ([3], [0])] : List TaskPair) :=
+  ⟨auc_reorder_tie_witness.1, auc_reorder_tie_witness.2, by decide +kernel⟩
+
+/-- BinaryBinnedAUROC (any `num_tasks`, any threshold list). -/
+theorem C12_batching_BinaryBinnedAUROC (t : List Q) (nt : Nat) :
+    FamStat.BatchingIrrelevantOrdered (listAcc TaskPair) (binaryBinnedAurocL t nt).stat List.flatten ∧
+      LAnyOrder (binaryBinnedAurocL t nt) (fun _ => True) :=
+  ⟨FamStat.batching_ordered_of_statCat _ (listAcc_laws _) FamStat.statCat_catSamples,
+    lAnyOrder_of_outPerm _ (outPerm_binaryBinnedAuroc t nt)⟩
+
+/- MulticlassBinnedAUROC, full statement (FALSE for the code as it is — recorded finding
+   `C06.multiclass_binned_auroc_witness`): `LAnyOrder (mcBinnedAurocL t C) (fun _ => True)`.
+   `_multiclass_binned_auroc_compute` returns one value per cached SAMPLE, in cache order. -/
+
+/-- MulticlassBinnedAUROC: consecutive batching only (order-carrying as it is). -/
+theorem C12_batching_MulticlassBinnedAUROC_partial (t : List Q) (C : Nat) :
+    FamStat.BatchingIrrelevantOrdered (listAcc (List Q × Nat)) (mcBinnedAurocL t C).stat catPair :=
+  FamStat.batching_ordered_of_statCat _ (listAcc_laws _) FamStat.statCat_rowSamples
+
+/-- witness: two cached samples, swapped ⇒ the two output entries swap. -/
+theorem C12_MulticlassBinnedAUROC_order_witness :
+    ((mcBinnedAurocL [0, 1/4, 1/2, 3/4, 1] 3).outA [([3/4, 1/4, 0], 0), ([1/4, 1/2, 1/4], 0)]).toOption = some [1, 1/4] ∧
+    ((mcBinnedAurocL [0, 1/4, 1/2, 3/4, 1] 3).outA [([1/4, 1/2, 1/4], 0), ([3/4, 1/4, 0], 0)]).toOption = some [1/4, 1] := by
+  decide +kernel
+
+/-- Wasserstein1D: consecutive batching reaches the same state (for every `compute`), and two valid
+    streams whose weighted samples of either distribution are permutations of each other give the same
+    `compute()`. -/
+theorem C12_batching_Wasserstein1D :
+    FamStat.BatchingIrrelevantOrdered (pairAcc (Q × Q) (Q × Q)) wassStat catW ∧
+    (∀ bs bs' : List WBatch, WValid bs → WValid bs' →
+      (wState bs).1.Perm (wState bs').1 → (wState bs).2.Perm (wState bs').2 →
+      ∃ s s', eval wassCls (single bs) = .ok s ∧ eval wassCls (single bs') = .ok s' ∧
+        wassCls.out s = wassCls.out s') :=
+  ⟨FamStat.batching_ordered_of_statCat _ (pairAcc_laws _ _) statCat_wass, wass_anyOrder⟩
+
+/-- PeakSignalNoiseRatio(data_range=None): any two histories (in particular two single instances fed
+    different batchings / orders) holding the same live batches up to order compute the same value; and
+    re-cutting the batch boundaries does not matter either (the value is the functional on the
+    concatenation, `C01_merge_tree_PSNR_auto`). -/
+theorem C12_batching_PSNR_auto (bs bs' : List (List Q × List Q)) (s s' : Agg.PsnrS)
+    (he : eval (psnrCls none) (single bs) = .ok s) (he' : eval (psnrCls none) (single bs') = .ok s')
+    (hne : psnrTargets bs ≠ [])
+    (h : bs.Perm bs' ∨ (psnrInputs bs = psnrInputs bs' ∧ psnrTargets bs = psnrTargets bs')) :
+    (psnrCls none).out s = (psnrCls none).out s' := by
+  rcases h with hp | ⟨e1, e2⟩
+  · exact psnr_any_history_auto _ _ s s' he he' (by simpa [flatten_single] using hp) (by simpa [flatten_single] using hne)
+  · rw [psnr_merge_tree_auto _ s he (by simpa [flatten_single] using hne),
+      psnr_merge_tree_auto _ s' he' (by rw [flatten_single, ← e2]; exact hne)]
+    simp only [flatten_single, e1, e2]
+
+/-- PeakSignalNoiseRatio(data_range = r > 0). -/
+theorem C12_batching_PSNR_fixed (r : Q) (hr : 0 < r) (bs bs' : List (List Q × List Q)) (s s' : Agg.PsnrS)
+    (he : eval (psnrCls (some r)) (single bs) = .ok s) (he' : eval (psnrCls (some r)) (single bs') = .ok s')
+    (h : bs.Perm bs' ∨ (psnrInputs bs = psnrInputs bs' ∧ psnrTargets bs = psnrTargets bs')) :
+    (psnrCls (some r)).out s = (psnrCls (some r)).out s' := by
+  rcases h with hp | ⟨e1, e2⟩
+  · exact psnr_any_history_fixed r _ _ s s' he he' (by simpa [flatten_single] using hp)
+  · rw [psnr_merge_tree_fixed r hr _ s he, psnr_merge_tree_fixed r hr _ s' he']
+    simp only [flatten_single, e1, e2]
+
+/-- Covariance: any batching (batches without rows and with a single row included) and any order of
+    the observations of `d` columns give the same `compute()` (value or `ValueError`). -/
+theorem C12_batching_Covariance (d : Nat) (bs bs' : List (Nat × Mat))
+    (hd : ∀ b ∈ bs, b.1 = d) (hd' : ∀ b ∈ bs', b.1 = d) (hp : (AggL.rowsOf bs).Perm (AggL.rowsOf bs')) :
+    ∃ s s', eval covCls (single bs) = .ok s ∧ eval covCls (single bs') = .ok s' ∧
+      covCls.out s = covCls.out s' := by
+  obtain ⟨s, he⟩ := cov_eval_ok (single bs)
+  obtain ⟨s', he'⟩ := cov_eval_ok (single bs')
+  exact ⟨s, s', he, he', cov_any_history d _ _ s s' he he' (by simpa [flatten_single] using hd)
+    (by simpa [flatten_single] using hd') (by simpa [flatten_single] using hp)⟩
+
+/-- Max / Min: any batching, any order of the elements. -/
+theorem C12_batching_Max (bs bs' : List (List Q)) (s s' : Option Q)
+    (he : eval maxCls (single bs) = .ok s) (he' : eval maxCls (single bs') = .ok s')
+    (hp : bs.flatten.Perm bs'.flatten) : maxCls.out s = maxCls.out s' :=
+  max_any_history _ _ s s' he he' (by simpa [flatten_single] using hp)
+
+theorem C12_batching_Min (bs bs' : List (List Q)) (s s' : Option Q)
+    (he : eval minCls (single bs) = .ok s) (he' : eval minCls (single bs') = .ok s')
+    (hp : bs.flatten.Perm bs'.flatten) : minCls.out s = minCls.out s' :=
+  min_any_history _ _ s s' he he' (by simpa [flatten_single] using hp)
+
+/-- Throughput: one instance fed the same `(num_processed, elapsed_time_sec)` updates in any order. -/
+theorem C12_batching_Throughput (bs bs' : List (Q × Q)) (s s' : Q × Q) (hp : bs.Perm bs')
+    (he : eval thrCls (single bs) = .ok s) (he' : eval thrCls (single bs') = .ok s') :
+    thrCls.out s = thrCls.out s' :=
+  thr_single_any_order bs bs' s s' hp he he'
+
+/-! ### non-vacuity -/
+
+/-- BinaryAUROC, one task: streams `3 + 1 + 2` samples vs the same samples permuted and cut `1 + 0 + 5`
+    (an empty batch included): hypotheses of `C12_batching_BinaryAUROC` hold, so `compute()` agrees. -/
+example :
+    let bs : List (List TaskSample) :=
+      [[([3/4], [1], [1]), ([1/4], [0], [2]), ([1/2], [1], [1])], [([1/2], [0], [1])], [([1], [1], [1]), ([0], [0], [3])]]
+    let bs' : List (List TaskSample) :=
+      [[([1/2], [0], [1])], [], [([0], [0], [3]), ([3/4], [1], [1]), ([1], [1], [1]), ([1/4], [0], [2]), ([1/2], [1], [1])]]
+    ∃ s s', eval (binaryAurocC 1).cls (single bs) = .ok s ∧ eval (binaryAurocC 1).cls (single bs') = .ok s' ∧
+      (binaryAurocC 1).cls.out s = (binaryAurocC 1).cls.out s' := by
+  intro bs bs'
+  refine (C12_batching_BinaryAUROC 1).2 bs bs' (by decide) (by decide) (valid_catSamples _) (valid_catSamples _) ?_ ?_
+  · show (samplesOf (catSamples (α := TaskSample)) bs).Perm (samplesOf catSamples bs')
+    rw [samplesOf_catSamples, samplesOf_catSamples]; decide +kernel
+  · show BinaryLabels 1 (samplesOf (catSamples (α := TaskSample)) bs)
+    rw [samplesOf_catSamples]; decide +kernel
+
+/-- MultilabelAUPRC (row samples): `2 + 1` rows vs the rows reversed in one batch. -/
+example :
+    let bs : List (Mat × Mat) := [([[1/2, 1/4], [1/4, 3/4]], [[1, 0], [0, 1]]), ([[1, 0]], [[1, 1]])]
+    let bs' : List (Mat × Mat) := [([[1, 0], [1/4, 3/4], [1/2, 1/4]], [[1, 1], [0, 1], [1, 0]])]
+    ∃ s s', eval (multilabelAuprcC 2 .macro).cls (single bs) = .ok s ∧
+      eval (multilabelAuprcC 2 .macro).cls (single bs') = .ok s' ∧
+      (multilabelAuprcC 2 .macro).cls.out s = (multilabelAuprcC 2 .macro).cls.out s' := by
+  intro bs bs'
+  refine (C12_batching_MultilabelAUPRC 2 .macro).2 bs bs' (by decide) (by decide)
+    (valid_of_all' _ _ (by decide +kernel)) (valid_of_all' _ _ (by decide +kernel)) ?_ trivial
+  have e : ∀ l : List (Mat × Mat), Valid (rowSamples (β := List Q)) l →
+      samplesOf rowSamples l = (l.map fun b => b.1.zip b.2).flatten := samplesOf_pairSamples
+  show (samplesOf (rowSamples (β := List Q)) bs).Perm (samplesOf rowSamples bs')
+  rw [e _ (valid_of_all' _ _ (by decide +kernel)), e _ (valid_of_all' _ _ (by decide +kernel))]
+  decide +kernel
+
+/-- Wasserstein1D: weights given / missing, samples of both distributions in another order and batching. -/
+example :
+    let bs : List WBatch := [⟨[1, 2], [5], some [1, 2], none⟩, ⟨[3], [1, 4], none, some [2, 1]⟩]
+    let bs' : List WBatch := [⟨[3, 1, 2], [4, 5, 1], some [1, 1, 2], some [1, 1, 2]⟩]
+    WValid bs ∧ WValid bs' ∧ (wState bs).1.Perm (wState bs').1 ∧ (wState bs).2.Perm (wState bs').2 := by
+  intro bs bs'
+  exact ⟨FamStat.valid_of_all _ _ (by decide +kernel), FamStat.valid_of_all _ _ (by decide +kernel),
+    by decide +kernel, by decide +kernel⟩
+
+/-- PSNR(data_range=None): three updates (one of a single element) vs another order. -/
+example :
+    let bs : List (List Q × List Q) := [([1, 2, 3], [1, 2, 5]), ([0], [4]), ([2, 2], [2, 0])]
+    (eval (psnrCls none) (single bs)).toOption.isSome ∧ (eval (psnrCls none) (single bs.reverse)).toOption.isSome ∧
+      psnrTargets bs ≠ [] ∧ bs.Perm bs.reverse := by
+  intro bs
+  exact ⟨by decide +kernel, by decide +kernel, by decide +kernel, (List.reverse_perm _).symm⟩
+
+/-- Covariance: batches of 1, 0 and 2 rows vs one batch with the rows in another order. -/
+example :
+    let bs : List (Nat × Mat) := [(2, [[1, 2]]), (2, []), (2, [[3, 5], [0, 1]])]
+    let bs' : List (Nat × Mat) := [(2, [[0, 1], [1, 2], [3, 5]])]
+    (∀ b ∈ bs, b.1 = 2) ∧ (∀ b ∈ bs', b.1 = 2) ∧ (AggL.rowsOf bs).Perm (AggL.rowsOf bs') := by
+  intro bs bs'
+  exact ⟨by decide, by decide, by decide +kernel⟩
 
 end TE.C12
